@@ -29,7 +29,9 @@ type simpleAction struct {
 	rollbacks []string
 }
 
-func (a *simpleAction) Prepare(ctx context.Context, params interface{}) (bool, error) { return true, nil }
+func (a *simpleAction) Prepare(ctx context.Context, params interface{}) (bool, error) {
+	return true, nil
+}
 func (a *simpleAction) Commit(ctx context.Context, bac *tm.BusinessActionContext) (bool, error) {
 	a.mu.Lock()
 	a.commits = append(a.commits, fmt.Sprintf("%s/%d", bac.Xid, bac.BranchId))
